@@ -6,5 +6,5 @@ CONSTANTS
   EmitOps = {"branch","handoff"}
   PathOps = {"message","run_spawned","run_ended","checkpoint"}
 VIEW View
-INVARIANTS Emit CutPointsAreStrideMessages AutoIdempotent ReadOnlyQuiet LineageSound
+INVARIANTS Emit CutPointsAreStrideMessages AutoIdempotent ReadOnlyQuiet LineageSound BundleSound
 CHECK_DEADLOCK FALSE
